@@ -160,6 +160,8 @@ type double struct {
 	script []scriptedResult
 	calls  int
 	memo   map[*Node]*redis.Message // non-nil: reply objects are kept and handed out again
+	// non-empty: a Get of this key panics (an application handler with a bug), before anything is recorded
+	panicKey string
 }
 
 func hxs(ss []string) string {
@@ -280,6 +282,9 @@ func (d *double) Scan(conn *redis.Conn, cursor int, opt redis.ScanOption) (*redi
 	return d.answer(conn, fmt.Sprintf("scan(%d,%s,%d)", cursor, pat, opt.Count))
 }
 func (d *double) Get(conn *redis.Conn, key string) (*redis.Message, error) {
+	if d.panicKey != "" && key == d.panicKey {
+		panic("the application's handler panicked (requested by the case)")
+	}
 	return d.answer(conn, "get("+hx([]byte(key))+")")
 }
 func setOptString(opt redis.SetOption) string {
